@@ -22,7 +22,7 @@ func init() {
 	Register(&Rule{
 		ID:    "R-OFFSET",
 		Doc:   "every unsafe.Pointer(uintptr(p)+off) in json, proto and internal/runtime_reflect: off is traced backwards through conversions, φ, sums, struct fields of the repository (to every store into the field), parameters (to the arguments at every call site of the VTA call graph), captured variables (to the closure's bindings) and package variables (to their stores); the leaves must be reflect.StructField.Offset, a product with a Size()/Sizeof factor, or a constant; a bare Size() leaf is a violation, any other leaf is undecided",
-		Props: []string{"C01", "C02", "C03", "C06"},
+		Props: []string{"C01", "C02", "C03", "C06", "C07"},
 		Min:   map[string]int{"C01": 3, "C02": 4, "C03": 2},
 		Run:   runOffset,
 	})
@@ -348,7 +348,7 @@ func runOffset(c *core.Ctx) []core.Obligation {
 		case s.fn.Pkg != nil && s.fn.Pkg.Pkg.Name() == "json":
 			props = []string{"C02"}
 		default:
-			props = []string{"C03"}
+			props = []string{"C03", "C07"}
 		}
 		tr.seen, tr.seenFld, tr.leaves = map[ssa.Value]bool{}, map[string]bool{}, map[string]bool{}
 		tr.trace(s.off, 0)
